@@ -390,6 +390,17 @@ Proof.
   exact (quiescent_all_accounted n false _ _ (pipe_proj_flow c n ls g s H) Hst Hh Ho Hq).
 Qed.
 
+(* the input plugin is notified of a prefix of the flow's commits, in that order (the replay of every real trace checks
+   exactly this: the k-th InputPlugin.Commit of a stream carries the k-th commit of its flow): the notifications of a
+   stream are strictly increasing and never repeat *)
+Theorem pipe_input_commits_increasing c n ls g s ics rest : grun c n (ginit c) ls = Some g ->
+  map pseq (rev (commits (gflow n g s))) = ics ++ rest ->
+  StronglySorted Z.lt ics /\ NoDup ics.
+Proof.
+  intros H Hp. pose proof (pipe_commits_increasing c n ls g s H) as Hs. rewrite Hp in Hs.
+  apply sorted_app_l in Hs. split; [exact Hs|apply sorted_nodup; exact Hs].
+Qed.
+
 (* ------------------------------------------------------------------------------------------- *)
 (* non-vacuity: two streams through one batcher (2 workers, batches of 2); stream 0 holds its first
    event and flushes it with the second; the batch holds events of both streams                   *)
